@@ -138,9 +138,7 @@ def check(spec):
     active = False
     for ev in hist_ev:
         if ev == "enter":
-            if active:
-                continue
-            tracker.__enter__()
+            tracker.__enter__()  # entering again while active is legal: it restarts the books unless persistent
             active = True
             if not persistent:
                 mark = len(counter.log)
